@@ -1066,10 +1066,15 @@ def _body_facts(self):
                     sg = _signed_to_unsigned(deep_strip(c[1]))
                     if sg is not None and truth in (0, 1):
                         facts.append({"u": bb, "v": tgt, "rel": ('cmp', 'Ge' if truth == 0 else 'Lt', sg, ('const', 0))})
+                    # `y?`: Continue exactly when y is Ok/Some; `x.ok_or(e)` is Ok exactly when x is Some
+                    for r2 in _discr_twins(deep_strip(c[1]), truth):
+                        facts.append({"u": bb, "v": tgt, "rel": r2})
                     # x.map(f) / x.map_err(f) has the variant of x
                     inner = deep_strip(c[1])
-                    while inner[0] == 'call' and len(inner[2]) == 2 and canon(inner[1]).split("::")[-2:] in (["Option", "map"], ["Result", "map"], ["Result", "map_err"]):
-                        inner = deep_strip(inner[2][0])
+                    while inner[0] == 'call' and inner[2] and canon(inner[1]).split("::")[-2:] in (
+                            ["Option", "map"], ["Result", "map"], ["Result", "map_err"], ["Option", "as_ref"], ["Option", "as_mut"], ["Result", "as_ref"],
+                            ["Result", "as_mut"], ["Option", "copied"], ["Option", "cloned"], ["Option", "as_deref"]):
+                        inner = _unref(inner[2][0])
                         facts.append({"u": bb, "v": tgt, "rel": ('discr', inner, truth)})
                 else:
                     rel = ('cmp', 'Eq', c, ('const', truth))
@@ -1083,6 +1088,38 @@ def _body_facts(self):
                     facts.append({"u": bb, "v": edges[-1][0], "rel": ('cmp', 'Ne', c, ('const', val))})
     self._facts = facts
     return facts
+
+
+def _discr_twins(x, v, depth=0):
+    out = []
+    if depth > 3 or x[0] != 'call' or not x[2] or v not in (0, 1):
+        return out
+    cn = canon(x[1])
+    inner = _unref(x[2][0])
+    if cn.endswith("Try::branch"):
+        # Continue (0) <=> the operand is a success. The operand's own variant numbering depends on its type.
+        kind = None
+        if inner[0] == 'call':
+            ic = canon(inner[1]).split("::")
+            if ic[-2:-1] == ["Result"] or ic[-1] in ("ok_or", "ok_or_else", "try_from", "try_into"):
+                kind = "Result"
+            elif ic[-2:-1] == ["Option"] and ic[-1] not in ("ok_or", "ok_or_else"):
+                kind = "Option"
+            elif ic[-1].startswith("checked_"):
+                kind = "Option"
+        if kind == "Result":
+            out.append(('discr', inner, v))
+            out.extend(_discr_twins(inner, v, depth + 1))
+        elif kind == "Option":
+            out.append(('discr', inner, 1 - v))
+            out.extend(_discr_twins(inner, 1 - v, depth + 1))
+    elif cn.split("::")[-2:] in (["Option", "ok_or"], ["Option", "ok_or_else"]):
+        out.append(('discr', inner, 1 - v))
+        out.extend(_discr_twins(inner, 1 - v, depth + 1))
+    elif cn.split("::")[-2:] == ["Result", "ok"]:
+        out.append(('discr', inner, 1 - v))
+        out.extend(_discr_twins(inner, 1 - v, depth + 1))
+    return out
 
 
 def rels_of_bool(term, truth):
